@@ -222,6 +222,12 @@ func Read(r *bufio.Reader, l *log.Logger) (Message, error) {
 			return nil, err
 		}
 
+		if subtype <= ExtMetadata && length > 64*1024 {
+			// these are bencoded, and the decoder recurses
+			// on nested lists and dictionaries
+			return nil, errors.New("extended message too long")
+		}
+
 		switch subtype {
 		case 0:
 			var ext extensionInfo
